@@ -12,6 +12,7 @@ import itertools
 from ..core.absint import Intervals
 from ..core.flow import call_name, calls_in, is_name
 from ..core.loader import AnalysisError, short, own_nodes, norm
+from ..core.interp import ModuleInterp
 from ..core.minieval import Evaluator, Unsupported, Raised, MODKEY as MODKEY_
 from ..core.report import where
 from ..specs.evm import SMTLIB, NEUTRAL, ABSORBING
@@ -181,10 +182,10 @@ def rule_a(ctx, out):
     # renderer: abstract evaluation of translate_formula on one representative per kind of formula (and nestings of them)
     tf = ctx.func("smt_encoding.solver.solver_from_executable.translate_formula")
 
+    rmi = ModuleInterp(ctx, obj_types=(FakeRef, FakeConn, FakeFunc), max_steps=50000, inject={"ExpressionReference": FakeRef})
+
     def render(x):
-        ev = Evaluator(tf.node, globals_env={"ExpressionReference": FakeRef}, obj_types=(FakeRef, FakeConn, FakeFunc), max_steps=50000,
-                       call_hook=lambda name, a, k: render(*a) if name == "translate_formula" else (_ for _ in ()).throw(Unsupported(name)))
-        return ev.call(x)
+        return rmi.call(tf, x)
 
     def expected(x):
         if isinstance(x, bool):
